@@ -6,13 +6,14 @@ import json
 from sim import rng as simrng
 
 TICK_BUDGET = 2_000_000
+TIGHT_LOOP = 40_000
 
 
-def call(env, fn, *args, budget=TICK_BUDGET, **kw):
+def call(env, fn, *args, budget=TICK_BUDGET, tight=TIGHT_LOOP, **kw):
     """Call a library function under the tick clock.  Returns ('ok', value, ticks) | ('exc', 'Type: msg', ticks) |
     ('timeout', msg, ticks).  stdout is already a sink."""
     clock = env.clock
-    clock.start(budget)
+    clock.start(budget, tight)
     try:
         v = fn(*args, **kw)
         return 'ok', v, clock.stop()
